@@ -49,8 +49,24 @@ class Func:
 
 
 class Cls:
-    def __init__(self, name, consts, fields, init_params, methods):
+    def __init__(self, name, consts, fields, init_params, methods, base=None):
         self.name, self.consts, self.fields, self.init_params, self.methods = name, consts, fields, init_params, methods
+        self.base = base
+        self.fluent = []          # methods that return self: Func with ret == "self"
+        self.helpers = []         # module-level functions taking an instance as first parameter
+
+    def isa(self, other):
+        c = self
+        while c is not None:
+            if c is other:
+                return True
+            c = c.base
+        return False
+
+
+def objty(c):
+    """static type of expressions denoting an instance of class c (or a subclass)."""
+    return ("obj", c)
 
 
 class Scope:
@@ -143,11 +159,54 @@ class Gen:
 
     def expr(self, sc, ty, d=0):
         """expression of static type `ty` that cannot raise."""
+        if isinstance(ty, tuple) and ty[0] == "obj":
+            return self.e_obj(sc, ty[1], d)
         maxd = 3 if self.size != "small" else 2
         if d >= maxd or self.chance(0.25 + 0.1 * d):
             return self.atom(sc, ty)
         f = getattr(self, "e_" + ty)
         return f(sc, d)
+
+    def objs_in(self, sc, c=None, outer=True):
+        """object variables visible in the scope (optionally: instances of c), own scope first."""
+        res = [v for v in sc.vars.values() if v.ty == "obj" and (c is None or v.cls.isa(c))]
+        if outer:
+            blocked = (sc.fn or {}).get("blocked", ())
+            p = sc.parent
+            while p is not None:
+                for v in p.vars.values():
+                    if v.ty == "obj" and (c is None or v.cls.isa(c)) and v.name not in sc.vars and v.name not in blocked \
+                            and all(v.name != x.name for x in res):
+                        res.append(v)
+                p = p.parent
+        return res
+
+    def e_obj(self, sc, c, d):
+        """expression denoting an instance of c: a variable (self, a parameter, a local, a module-level object),
+        a fluent call on one, an element of a literal container holding one, or a fresh instance."""
+        r = self.rng
+        vs = self.objs_in(sc, c)
+        if vs:
+            v = self.pick(vs)
+            k = r.random()
+            nm = ("name", v.name)
+            if k < 0.55 or d >= 2:
+                return nm
+            fl = [m for m in v.cls.fluent if not (m.heavy and sc.in_loop)]
+            if k < 0.80 and fl and not sc.fn.get("no_fluent_on_self") if sc.fn else False:
+                m = self.pick(fl)
+                args, kws = self.call_args(sc, m, d + 1)
+                return ("mcall", nm, m.name, args, kws)
+            if k < 0.87 and self.on("containers"):
+                return ("sub", ("list", [nm, nm]), ("int", r.choice([0, 1, -1])))
+            if k < 0.93 and self.on("containers"):
+                return ("sub", ("dict", [(("str", "k"), nm)]), ("str", "k"))
+            if k < 0.97 and self.on("containers"):
+                return ("sub", ("tuple", [nm, self.lit(INT)]), ("int", 0))
+            return nm
+        f = Func(c.name, c.init_params, "obj", False, False)
+        args, kws = self.call_args(sc, f, d + 1)
+        return ("call", c.name, args, kws)
 
     def small_int(self, sc, d):
         """an int expression bounded in absolute value (used as exponent base / repetition)."""
@@ -155,6 +214,10 @@ class Gen:
 
     def e_int(self, sc, d):
         r = self.rng
+        if self.on("classes") and self.classes and self.chance(0.22) and self.objs_in(sc):
+            c = self.obj_read(sc, d)
+            if c is not None:
+                return c
         k = r.random()
         if k < 0.30:
             op = r.choice(["+", "-", "+", "-", "*"])
@@ -353,23 +416,41 @@ class Gen:
         return None
 
     def obj_read(self, sc, d):
-        objs = [v for v in sc.vars.values() if v.ty == "obj"]
+        """int-valued read through an object: field, class constant, method call, fluent chain, helper call."""
+        r = self.rng
+        objs = self.objs_in(sc)
         if not objs:
             return None
         v = self.pick(objs)
         c = v.cls
-        k = self.rng.random()
-        if k < 0.4 and c.fields:
-            return ("attr", ("name", v.name), self.pick(c.fields))
-        if k < 0.55 and c.consts:
-            return ("attr", ("name", v.name) if self.chance(0.5) else ("name", c.name), self.pick(c.consts))
-        ms = [m for m in c.methods if m.ret == INT]
-        if ms and not (sc.in_loop and any(m.heavy for m in ms)):
+        base = ("name", v.name)
+        k = r.random()
+        # receiver: the variable itself, or a fluent chain on it (receiver is then a temporary)
+        fl = [m for m in c.fluent if not (m.heavy and sc.in_loop)]
+        if fl and d < 2 and self.chance(0.35):
+            for _ in range(r.randint(1, 2)):
+                m = self.pick(fl)
+                args, kws = self.call_args(sc, m, d + 1)
+                base = ("mcall", base, m.name, args, kws)
+        if k < 0.35 and c.fields:
+            return ("attr", base, self.pick(c.fields))
+        if k < 0.47 and c.consts:
+            return ("attr", base if self.chance(0.6) else ("name", c.name), self.pick(c.consts))
+        if k < 0.60 and c.helpers and base[0] == "name":
+            hs = [h for h in c.helpers if h.ret == INT]
+            if hs:
+                h = self.pick(hs)
+                args, kws = self.call_args(sc, h, d + 1)
+                return ("call", h.name, args, kws)
+        ms = [m for m in c.methods if m.ret == INT and not (sc.in_loop and m.heavy)
+              and not (sc.fn and sc.fn.get("method_index") is not None and v.name == "self"
+                       and m.index >= sc.fn["method_index"])]
+        if ms:
             m = self.pick(ms)
-            args, kws = self.call_args(sc, m, d)
-            return ("mcall", ("name", v.name), m.name, args, kws)
+            args, kws = self.call_args(sc, m, d + 1)
+            return ("mcall", base, m.name, args, kws)
         if c.fields:
-            return ("attr", ("name", v.name), self.pick(c.fields))
+            return ("attr", base, self.pick(c.fields))
         return None
 
     def call_args(self, sc, f, d):
@@ -401,6 +482,9 @@ class Gen:
         cands = [f for f in self.funcs if f.ret == ty and not (f.heavy and sc.in_loop)
                  and not (sc.fn and f.name == sc.fn.get("name"))]
         cands = [f for f in cands if sc.fn is None or f.name not in sc.fn.get("forbidden_calls", ())]
+        # an instance argument must be available: a visible object, or a class whose definition is complete
+        cands = [f for f in cands if all(not isinstance(pt[1], tuple) or getattr(pt[1][1], "complete", False)
+                                         or self.objs_in(sc, pt[1][1]) for pt in f.params)]
         if want_effect:
             eff = [f for f in cands if f.effectful]
             if eff:
@@ -474,6 +558,10 @@ class Gen:
         self.stmt_budget -= 1
         k = r.random()
         writable = lambda ty: sc.of_type(ty, writable=True)
+        if self.on("classes") and self.classes and self.chance(0.22):
+            st = self.obj_stmt(sc)
+            if st:
+                return st
         if k < 0.20 or len(sc.vars) < 2:
             return [self.new_var_stmt(sc)]
         if k < 0.30:
@@ -501,6 +589,8 @@ class Gen:
         if k < 0.93 and self.on("calls"):
             fs = [f for f in self.funcs if not (f.heavy and sc.in_loop) and not (sc.fn and f.name == sc.fn.get("name"))
                   and (sc.fn is None or f.name not in sc.fn.get("forbidden_calls", ()))]
+            fs = [f for f in fs if all(not isinstance(pt[1], tuple) or getattr(pt[1][1], "complete", False)
+                                       or self.objs_in(sc, pt[1][1]) for pt in f.params)]
             if fs:
                 f = self.pick(fs)
                 args, kws = self.call_args(sc, f, 1)
@@ -730,37 +820,93 @@ class Gen:
             els = self.block(sc.child(), 1, False, fn_ret)
         return [("for", names, it, body, els)]
 
+    def new_obj(self, sc, c=None):
+        c = c or self.pick(self.classes)
+        name = self.fresh("o")
+        f = Func(c.name, c.init_params, "obj", False, False)
+        args, kws = self.call_args(sc, f, 1)
+        v = Var(name, "obj", cls=c)
+        v.root = name
+        v.order = self.n
+        sc.vars[name] = v
+        return [("assign", ("name", name), ("call", c.name, args, kws))]
+
     def obj_stmt(self, sc):
         r = self.rng
-        objs = [v for v in sc.vars.values() if v.ty == "obj" and v.name not in sc.frozen]
-        if not objs or self.chance(0.3):
-            if not self.classes:
-                return None
-            c = self.pick(self.classes)
-            name = self.fresh("o")
-            f = Func(c.name, c.init_params, "obj", False, False)
-            args, kws = self.call_args(sc, f, 1)
-            sc.vars[name] = Var(name, "obj", cls=c)
-            return [("assign", ("name", name), ("call", c.name, args, kws))]
+        if not self.classes:
+            return None
+        objs = [v for v in self.objs_in(sc, outer=False) if v.name not in sc.frozen or v.name == "self"]
+        own = [v for v in objs if v.name != "self"]
+        if (not objs or self.chance(0.2)) and not (sc.fn and sc.fn.get("method_index") is not None):
+            return self.new_obj(sc)
+        if not objs:
+            return None
         v = self.pick(objs)
         c = v.cls
+        nm = ("name", v.name)
+        in_method = bool(sc.fn and sc.fn.get("method_index") is not None)
         k = r.random()
-        if k < 0.3 and c.fields:
-            return [("assign", ("attr", ("name", v.name), self.pick(c.fields)), self.expr(sc, INT, 1))]
-        if k < 0.5 and c.fields and self.on("aug"):
+        if k < 0.18 and c.fields:
+            return [("assign", ("attr", nm, self.pick(c.fields)), self.expr(sc, INT, 1))]
+        if k < 0.30 and c.fields and self.on("aug"):
             fld = self.pick(c.fields)
             rhs = self.expr(sc, INT, 1)
-            ms = [m for m in c.methods if m.ret == INT and fld in m.writes and not m.heavy]
+            ms = [m for m in c.methods if m.ret == INT and fld in m.writes and not m.heavy and not in_method]
             if ms and self.chance(0.6):
                 m = self.pick(ms)
                 args, kws = self.call_args(sc, m, 1)
-                rhs = ("mcall", ("name", v.name), m.name, args, kws)
-            return [("aug", r.choice(["+", "-"]), ("attr", ("name", v.name), fld), rhs)]
-        ms = [m for m in c.methods if not (m.heavy and sc.in_loop)]
+                rhs = ("mcall", nm, m.name, args, kws)
+            return [("aug", r.choice(["+", "-"]), ("attr", nm, fld), rhs)]
+        fl = [m for m in c.fluent if not (m.heavy and sc.in_loop)]
+        if k < 0.45 and fl and not in_method:
+            # fluent chain as a statement, or bound to a new name (an alias of the same object)
+            e = nm
+            for _ in range(r.randint(1, 3)):
+                m = self.pick(fl)
+                args, kws = self.call_args(sc, m, 1)
+                e = ("mcall", e, m.name, args, kws)
+            if self.chance(0.5):
+                return [("expr", e)]
+            al = self.fresh("o")
+            av = Var(al, "obj", cls=c)
+            av.root = getattr(v, "root", v.name)
+            av.order = getattr(v, "order", 0)
+            sc.vars[al] = av
+            return [("assign", ("name", al), e)]
+        if k < 0.53 and c.consts:
+            # instance attribute shadowing the class attribute / class attribute write
+            kk = self.pick(c.consts)
+            tgt = nm if self.chance(0.6) else ("name", c.name)
+            return [("assign", ("attr", tgt, kk), self.expr(sc, INT, 1)),
+                    ("print", [("attr", nm, kk), ("attr", ("name", c.name), kk)])]
+        if k < 0.62 and len(own) >= 2 and not in_method:
+            # store one object in a field of another (never cyclic: only towards later-created roots)
+            a, b = r.sample(own, 2)
+            if getattr(a, "order", 0) > getattr(b, "order", 0):
+                a, b = b, a
+            if getattr(a, "root", a.name) != getattr(b, "root", b.name) and getattr(a, "order", 0) < getattr(b, "order", 0) \
+                    and b.cls.fields and not getattr(b, "linked_from", False):
+                a.linked_from = True          # a now refers to b; b must never refer (transitively) to a
+                return [("assign", ("attr", ("name", a.name), "lnk"), ("name", b.name)),
+                        ("print", [("attr", ("attr", ("name", a.name), "lnk"), self.pick(b.cls.fields))])]
+        if k < 0.72 and self.on("containers"):
+            # objects stored in containers and used through them
+            o2 = self.pick(objs)
+            ln = self.fresh()
+            sc.vars[ln] = Var(ln, "objlist")
+            st = [("assign", ("name", ln), ("list", [nm, ("name", o2.name)]))]
+            if c.fields:
+                st.append(("print", [("attr", ("sub", ("name", ln), ("int", 0)), self.pick(c.fields)),
+                                     ("call", "len", [("name", ln)], [])]))
+            return st
+        if k < 0.80:
+            return [("print", [nm])]
+        ms = [m for m in c.methods if not (m.heavy and sc.in_loop)
+              and not (in_method and v.name == "self" and m.index >= sc.fn["method_index"])]
         if ms:
             m = self.pick(ms)
             args, kws = self.call_args(sc, m, 1)
-            return [("expr", ("mcall", ("name", v.name), m.name, args, kws))]
+            return [("expr", ("mcall", nm, m.name, args, kws))]
         return None
 
     # ---------------------------------------------------------------- functions / classes / program
@@ -805,6 +951,7 @@ class Gen:
         if method_of is not None:
             sc.vars["self"] = Var("self", "obj", cls=method_of)
             sc.frozen.add("self")
+            fninfo["method_index"] = len(method_of.methods) + len(method_of.fluent)
         # writes to enclosing variables
         if not nested and method_of is None and self.on("global") and self.chance(0.3):
             gs = [v for v in outer.vars.values() if v.ty in (INT, STR) and outer.kind == "module" and v.name not in fninfo["blocked"]]
@@ -865,6 +1012,7 @@ class Gen:
         self.stmt_budget = saved
         body.append(("return", self.ret_expr(sc, ret)))
         f = Func(name, params, ret, heavy, effectful, writes)
+        f.index = fninfo.get("method_index", 0)
         return ("def", name, [(pn, dflt, kw) for (pn, ty, dflt, kw) in params], body), f
 
     def pick_shadows(self, outer, fninfo):
@@ -885,32 +1033,193 @@ class Gen:
         fninfo["blocked"] |= set(chosen)
         fninfo["shadow_pool"] = list(chosen)
 
-    def gen_class(self, outer, name):
+    def method_scope(self, outer, c, name, params):
+        fninfo = {"heavy": False, "name": name, "globals": set(), "nonlocals": set(), "forbidden_calls": set(),
+                  "blocked": set(), "shadow_pool": [], "method_index": len(c.methods) + len(c.fluent)}
+        sc = Scope(self, "func", parent=outer, fn=fninfo)
+        for (pn, ty, dflt, kw) in params:
+            sc.vars[pn] = Var(pn, ty)
+        sc.vars["self"] = Var("self", "obj", cls=c)
+        sc.frozen.add("self")
+        return sc
+
+    def sig(self, params):
+        return [(pn, dflt, kw) for (pn, ty, dflt, kw) in params]
+
+    def gen_fluent(self, outer, c, name=None, params=None):
+        """def m(self, p=…): <update a field>; return self"""
         r = self.rng
-        consts = [self.fresh("K") for _ in range(r.randint(0, 2))]
-        fields = [self.fresh("f") for _ in range(r.randint(1, 3))]
-        init_params = self.gen_params(outer, n=r.randint(0, 2), allow_kwonly=False)
-        init_params = [(pn, INT if ty not in (INT,) else ty, (dflt if ty == INT else (self.lit(INT) if dflt is not None else None)), kw)
-                       for (pn, ty, dflt, kw) in init_params]
-        c = Cls(name, consts, fields, init_params, [])
-        init_body = []
-        ipnames = [p[0] for p in init_params]
-        sc0 = Scope(self, "func", parent=outer, fn={"heavy": False, "name": "__init__", "forbidden_calls": set()})
-        for (pn, ty, dflt, kw) in init_params:
-            sc0.vars[pn] = Var(pn, INT)
-        for fld in fields:
-            init_body.append(("assign", ("attr", ("name", "self"), fld), self.expr(sc0, INT, 1)))
-        methods = []
-        for _ in range(r.randint(1, 3)):
-            mname = self.fresh("m")
-            saved_funcs = self.funcs
-            # methods may call module functions defined so far, and earlier methods through self
-            mdef, mf = self.gen_func(outer, mname, False, method_of=c)
-            methods.append(mdef)
+        name = name or self.fresh("m")
+        if params is None:
+            params = [(self.fresh("p"), INT, (self.lit(INT) if self.chance(0.5) else None), False)]
+            if self.chance(0.3):
+                params.append((self.fresh("p"), INT, self.lit(INT), self.chance(0.5)))
+        sc = self.method_scope(outer, c, name, params)
+        fld = self.pick(c.fields)
+        body = []
+        if self.chance(0.6) and self.on("aug"):
+            body.append(("aug", r.choice(["+", "-", "*"]) if self.chance(0.8) else "+", ("attr", ("name", "self"), fld),
+                         ("name", params[0][0]) if self.chance(0.6) else ("int", r.choice([1, 2, 3]))))
+        else:
+            body.append(("assign", ("attr", ("name", "self"), fld), self.expr(sc, INT, 1)))
+        if self.chance(0.3):
+            body.append(("print", [("str", name), ("attr", ("name", "self"), fld)]))
+        if self.chance(0.25):
+            body.append(("if", [(self.expr(sc, BOOL, 1), [("return", ("name", "self"))])], None))
+            body.append(("assign", ("attr", ("name", "self"), fld), self.expr(sc, INT, 2)))
+        body.append(("return", ("name", "self")))
+        f = Func(name, params, "self", False, True, {fld})
+        f.index = sc.fn["method_index"]
+        return ("def", name, self.sig(params), body), f
+
+    def gen_selfuse(self, outer, c, name=None):
+        """a method that uses its receiver in every operand position: argument (positional / keyword), container
+        element, alias, comparison operand, truth test, receiver of calls to other methods."""
+        r = self.rng
+        name = name or self.fresh("m")
+        params = [(self.fresh("p"), INT, (self.lit(INT) if self.chance(0.4) else None), False)]
+        sc = self.method_scope(outer, c, name, params)
+        slf = ("name", "self")
+        body = []
+        al = self.fresh()
+        body.append(("assign", ("name", al), slf))
+        sc.vars[al] = Var(al, "obj", cls=c)
+        terms = [("attr", ("name", al), self.pick(c.fields))]
+        if self.on("containers"):
+            ln, dn = self.fresh(), self.fresh()
+            body.append(("assign", ("name", ln), ("list", [slf, ("name", al)])))
+            body.append(("assign", ("name", dn), ("dict", [(("str", "k"), slf)])))
+            terms.append(("attr", ("sub", ("name", ln), ("int", r.choice([0, 1]))), self.pick(c.fields)))
+            terms.append(("attr", ("sub", ("name", dn), ("str", "k")), self.pick(c.fields)))
+            if self.chance(0.5):
+                body.append(("expr", ("mcall", ("name", ln), "append", [slf], [])))
+                terms.append(("call", "len", [("name", ln)], []))
+        for h in c.helpers:
+            if h.ret == INT and self.chance(0.8):
+                args, kws = self.call_args(sc, h, 1)
+                terms.append(("call", h.name, args, kws))
+        earlier = [m for m in c.methods if m.ret == INT and not m.heavy]
+        if earlier:
+            m = self.pick(earlier)
+            args, kws = self.call_args(sc, m, 1)
+            terms.append(("mcall", slf, m.name, args, kws))
+        if c.fluent:
+            m = self.pick(c.fluent)
+            args, kws = self.call_args(sc, m, 1)
+            terms.append(("attr", ("mcall", slf, m.name, args, kws), self.pick(c.fields)))
+        bn = self.fresh()
+        body.append(("assign", ("name", bn), ("boolop", "and", ("cmp", ["is"], [("name", al), slf]),
+                                               ("cmp", ["=="], [slf, ("name", al)]))))
+        body.append(("if", [(slf, [("print", [("str", name), ("name", bn)])])], [("print", [("str", "falsy")])]))
+        e = terms[0]
+        for t in terms[1:]:
+            e = ("bin", r.choice(["+", "-"]), e, t)
+        body.append(("return", ("bin", "+", e, ("name", params[0][0]))))
+        f = Func(name, params, INT, False, True, set())
+        f.index = sc.fn["method_index"]
+        return ("def", name, self.sig(params), body), f
+
+    def gen_helper(self, c):
+        """module-level function whose first parameter is an instance of c."""
+        r = self.rng
+        name = self.fresh("h")
+        po = self.fresh("p")
+        params = [(po, objty(c), None, False), (self.fresh("p"), INT, self.lit(INT), self.chance(0.3))]
+        body = []
+        fld = self.pick(c.fields)
+        if self.chance(0.4):
+            body.append(("aug", "+", ("attr", ("name", po), fld), ("name", params[1][0])))
+        if self.chance(0.3):
+            body.append(("print", [("str", name), ("attr", ("name", po), fld)]))
+        body.append(("return", ("bin", "+", ("attr", ("name", po), self.pick(c.fields)), ("name", params[1][0]))))
+        f = Func(name, params, INT, False, True, set())
+        return ("def", name, self.sig(params), body), f
+
+    def gen_class(self, outer, name, base=None):
+        """returns ([statements: helpers + class def], Cls)."""
+        r = self.rng
+        if base is None:
+            consts = [self.fresh("K") for _ in range(r.randint(0, 2))]
+            fields = [self.fresh("f") for _ in range(r.randint(1, 3))]
+            init_params = self.gen_params(outer, n=r.randint(0, 2), allow_kwonly=False)
+            init_params = [(pn, INT, (dflt if ty == INT else (self.lit(INT) if dflt is not None else None)), kw)
+                           for (pn, ty, dflt, kw) in init_params]
+            if init_params and self.chance(0.3):
+                pn, ty, dflt, kw = init_params[-1]
+                init_params[-1] = (pn, ty, dflt if dflt is not None else self.lit(INT), True)   # keyword-only
+        else:
+            consts = list(base.consts)
+            fields = list(base.fields)
+            init_params = list(base.init_params)
+        c = Cls(name, consts, fields, init_params, [], base=base)
+        pre = []
+        members = []
+        own_consts = []
+        if base is None:
+            own_consts = [(k, self.lit(INT)) for k in consts]
+        else:
+            c.methods = list(base.methods)
+            c.fluent = list(base.fluent)
+            c.helpers = list(base.helpers)
+            if base.consts and self.chance(0.5):
+                own_consts = [(self.pick(base.consts), self.lit(INT))]          # class attribute overridden in the subclass
+        # __init__ (a subclass either inherits it or defines its own, without calling the base one)
+        if base is None or self.chance(0.5):
+            sc0 = Scope(self, "func", parent=outer, fn={"heavy": False, "name": "__init__", "forbidden_calls": set()})
+            for (pn, ty, dflt, kw) in init_params:
+                sc0.vars[pn] = Var(pn, INT)
+            init_body = [("assign", ("attr", ("name", "self"), fld), self.expr(sc0, INT, 1)) for fld in fields]
+            members.append(("def", "__init__", self.sig(init_params), init_body))
+        if base is None:
+            for _ in range(r.randint(1, 2)):
+                hdef, hf = self.gen_helper(c)
+                pre.append(hdef)
+                c.helpers.append(hf)
+                self.funcs.append(hf)
+            n_plain = r.randint(1, 2)
+            for _ in range(n_plain):
+                mdef, mf = self.gen_func(outer, self.fresh("m"), False, method_of=c)
+                members.append(mdef)
+                c.methods.append(mf)
+            for _ in range(r.randint(1, 2)):
+                mdef, mf = self.gen_fluent(outer, c)
+                members.append(mdef)
+                c.fluent.append(mf)
+            if self.chance(0.8):
+                mdef, mf = self.gen_selfuse(outer, c)
+                members.append(mdef)
+                c.methods.append(mf)
+        else:
+            # overrides (same name and parameters), then a new method that calls inherited ones
+            if c.fluent and self.chance(0.8):
+                i = r.randrange(len(c.fluent))
+                old = c.fluent[i]
+                mdef, mf = self.gen_fluent(outer, c, name=old.name, params=old.params)
+                mf.index = old.index
+                members.append(mdef)
+                c.fluent[i] = mf
+            ints = [i for i, m in enumerate(c.methods) if m.ret == INT and len(m.params) <= 1
+                    and all(p[1] == INT for p in m.params)]
+            if ints and self.chance(0.7):
+                i = self.pick(ints)
+                old = c.methods[i]
+                sc = self.method_scope(outer, c, old.name, old.params)
+                sc.fn["method_index"] = old.index
+                val = ("attr", ("name", "self"), self.pick(fields))
+                if self.on("basecall") and self.chance(0.25) and all(p[2] is None for p in old.params):
+                    val = ("basecall", base.name, old.name, [self.expr(sc, INT, 2) for _ in old.params])
+                body = [("print", [("str", name + "." + old.name)]),
+                        ("return", ("bin", "*", val, ("int", r.choice([2, 3, -1]))))]
+                mf = Func(old.name, old.params, INT, False, True, set())
+                mf.index = old.index
+                members.append(("def", old.name, self.sig(old.params), body))
+                c.methods[i] = mf
+            mdef, mf = self.gen_selfuse(outer, c)
+            members.append(mdef)
             c.methods.append(mf)
-        cdef = ("class", name, None, [(k, self.lit(INT)) for k in consts],
-                [("def", "__init__", [(pn, dflt, kw) for (pn, ty, dflt, kw) in init_params], init_body)] + methods)
-        return cdef, c
+        cdef = ("class", name, base.name if base else None, own_consts, members)
+        c.complete = True
+        return pre + [cdef], c
 
     def program(self):
         r = self.rng
@@ -936,10 +1245,11 @@ class Gen:
         if not self.on("calls"):
             nf = 0
         for i in range(nf):
-            if self.on("classes") and self.chance(0.25) and len(self.classes) < 2:
+            if self.on("classes") and self.chance(0.3) and len(self.classes) < 3:
                 cname = self.fresh("C")
-                cdef, c = self.gen_class(mod, cname)
-                body.append(cdef)
+                base = self.pick(self.classes) if (self.classes and self.chance(0.5)) else None
+                cdefs, c = self.gen_class(mod, cname, base)
+                body += cdefs
                 self.classes.append(c)
                 continue
             name = self.fresh("fn")
@@ -949,6 +1259,11 @@ class Gen:
             self.funcs.append(f)
             if self.chance(0.15):
                 body.append(self.print_stmt(mod))
+        # a module-level object (used from functions as a global name)
+        if self.classes and self.chance(0.35):
+            top = Scope(self, "module")
+            top.vars = mod.vars
+            body += self.new_obj(top, self.pick(self.classes))
         # some top-level code (goes to %unit_init)
         if self.chance(0.4):
             self.stmt_budget = r.randint(1, 4)
@@ -966,6 +1281,9 @@ class Gen:
             sc.vars[pn] = Var(pn, ty)
         self.stmt_budget = r.randint(5, 14) if self.size != "small" else r.randint(2, 6)
         ebody = []
+        for c in self.classes:
+            if self.chance(0.85):
+                ebody += self.new_obj(sc, c)
         if self.on("nested") and self.on("calls") and self.chance(0.3):
             ebody += self.block(sc, 2, False, None)
             iname = self.fresh("inner")
@@ -978,7 +1296,7 @@ class Gen:
         ret = ("tuple", [("name", v.name) for v in outs[:6]])
         for v in sc.vars.values():
             if v.ty == "obj" and v.cls.fields:
-                ret[1].append(("attr", ("name", v.name), self.pick(v.cls.fields)))
+                ret[1].append(("attr", ("name", v.name), self.pick(v.cls.fields)) if self.chance(0.4) else ("name", v.name))
         ebody.append(("return", ret))
         body.append(("def", "entry", [(pn, None, False) for pn in pnames], ebody))
         argvs = []
@@ -1020,6 +1338,8 @@ class Renderer:
                        later operand that needs statements (calls) has been evaluated
        "for_else_dropped"  the else clause of a for loop is not emitted
        "import_rewrite"    `import a.b` rewrites the text a.b to a_b in string literals of later lines
+       "base_call_shift"   Base.m(self, a…) passes the receiver as an ordinary argument to a method whose receiver
+                           parameter was removed: one argument too many (only generated for methods without defaults)
     """
     def __init__(self, sim=()):
         self.sim = set(sim)
@@ -1092,6 +1412,11 @@ class Renderer:
             kws = x[3]
             return self.late(list(x[2]) + [v for _, v in kws],
                              lambda r: f"{x[1]}({self.args_r(r, len(x[2]), kws)})")
+        if k == "basecall":
+            # explicit base-class call  Base.m(self, args…)
+            if "base_call_shift" in self.sim:
+                return "_type_error()"
+            return f"{x[1]}.{x[2]}({', '.join(['self'] + [self.e(a) for a in x[3]])})"
         if k == "mcall":
             kws = x[4]
             return self.late([x[1]] + list(x[3]) + [v for _, v in kws],
@@ -1278,7 +1603,7 @@ def render(prog, sim=()):
 
 # ======================================================================== shapes (for known-finding matchers)
 TAGS = {"int", "bool", "str", "none", "name", "bin", "neg", "not", "cmp", "boolop", "ifexp", "call", "mcall", "list",
-        "tuple", "dict", "sub", "slice", "attr", "assign", "chain_assign", "aug", "unpack", "if", "while", "for",
+        "tuple", "dict", "sub", "slice", "attr", "basecall", "assign", "chain_assign", "aug", "unpack", "if", "while", "for",
         "break", "continue", "pass", "return", "expr", "print", "global", "nonlocal", "def", "class", "import"}
 
 
@@ -1341,6 +1666,8 @@ def shapes(prog):
                 res.add("import_dotted")
         elif k == "for" and n[4] is not None:
             res.add("for_else")
+        elif k == "basecall":
+            res.add("base_call")
         # operations whose bare-name operands lian reads late
         parts = None
         if k == "bin":
